@@ -39,10 +39,13 @@ class EvalCtx(object):
             return None
         self.nodes.add(node)
         self.level += 1
-        result = self._evaluate(node)  # type: ignore[no-untyped-call]
-        self.level -= 1
-        self.nodes.remove(node)
-        return result  # type: ignore[no-any-return]
+        try:
+            # the context outlives the request in the objects it created: an
+            # exception must not leave nodes marked as being evaluated
+            return self._evaluate(node)  # type: ignore[no-any-return,no-untyped-call]
+        finally:
+            self.level -= 1
+            self.nodes.remove(node)
 
     def _evaluate(self, node):  # type: ignore[no-untyped-def]
         node_type = type(node)
